@@ -77,8 +77,12 @@ Definition norm_index (i : Z) (n : nat) : nat :=
 Definition sliceZ (a b : Z) (s : string) : string :=
   slice (norm_index a (len s)) (norm_index b (len s)) s.
 
+(* codes 9..13 and 28..32; written as a match on the character so that vm_compute does not build unary numbers *)
 Definition is_space (c : ascii) : bool :=
-  let n := nat_of_ascii c in (((9 <=? n) && (n <=? 13)) || ((28 <=? n) && (n <=? 32)))%nat.
+  match c with
+  | " " | "009" | "010" | "011" | "012" | "013" | "028" | "029" | "030" | "031" => true
+  | _ => false
+  end%char.
 
 Fixpoint all_by (p : ascii -> bool) (s : string) : bool :=
   match s with "" => true | String c r => p c && all_by p r end.
